@@ -304,9 +304,17 @@ type DnsWorld struct {
 	HsErr   string
 }
 
+// dnsDomain is the tunnel domain of this world (Options.DnsDomain, default DnsDomain).
+func (w *World) dnsDomain() string {
+	if w.Opt.DnsDomain != "" {
+		return w.Opt.DnsDomain
+	}
+	return DnsDomain
+}
+
 func newDnsWorld(w *World, chans server.Channels) (*DnsWorld, error) {
 	d := &DnsWorld{W: w, Comm: &memServerComm{}, Path: &w.Opt.DnsPath}
-	d.Lis = sdns.NewServerDnsListener(DnsDomain, d.Comm)
+	d.Lis = sdns.NewServerDnsListener(w.dnsDomain(), d.Comm)
 	if w.Opt.DnsRaw {
 		return d, nil
 	}
@@ -343,7 +351,7 @@ func (d *DnsWorld) NewClientConn() (*sdns.ClientDnsConnection, *DgramConn, error
 		Client: &dns.Client{},
 		Conn:   &dns.Conn{Conn: dc, UDPSize: 65535},
 	}
-	conn, err := sdns.NewClientDnsConnection(DnsDomain, comm)
+	conn, err := sdns.NewClientDnsConnection(d.W.dnsDomain(), comm)
 	if err != nil {
 		return nil, nil, err
 	}
